@@ -23,8 +23,8 @@ TRUSTED = [
     "(the encoder is defined in Lean and compared with Python's on every payload), dict iteration order = insertion order",
     "getProcessStateDescription (the state-name table belongs to C01) and the values pid/tries/expected handed to the "
     "event constructor: that they are the values at the moment of the change is C01's observer theorem, not re-proved here",
-    "one-notification-per-announced-thing over daemon histories (group add/remove, supervisor state changes, remote "
-    "comm) is exercised by C09/C05's system-level runs, not by this check",
+    "one-notification-per-announced-thing is proved and driven here for sendRemoteCommEvent (through the real RPC interface); "
+    "for group add/remove and supervisor state changes over daemon histories it is exercised by C09/C05's system-level runs",
     "clock readings are dyadic (n/1024 s) so that float % and int() are exact; lone surrogates in names/payloads are outside the inputs",
 ]
 ASSUMPTIONS = ["names and identifiers are free of spaces, colons and newlines (the property's own restriction)"]
@@ -245,6 +245,47 @@ class PayloadSide:
         self.impl.append('ok ' + hexs(p.encode('utf-8')))
 
 
+def remote_case(ctx, iface, got, t, d):
+    del got[:]
+    r = iface.sendRemoteCommEvent(t, d)
+    inp = {'what': 'remote', 'type': t, 'data': d}
+    if r is not True or len(got) != 1:
+        ctx.violation('remote-comm-not-one-to-one', 'sendRemoteCommEvent answered %r and raised %d notifications' % (r, len(got)), inp)
+    for e in got:
+        p = e.payload()
+        first, sep, rest = p.partition('\n')
+        if first != 'type:' + t or sep != '\n' or rest != d:
+            ctx.violation('remote-comm-payload-wrong', 'payload %r for type %r data %r' % (p[:80], t, d[:60]), inp)
+    ctx.count('remote-comm:' + ('ascii' if all(ord(c) < 128 for c in t + d) else 'non-ascii'))
+    ctx.case_done(('remote', t, d), nontrivial=bool(d))
+    return 'remote %s %s' % (T(t), T(d)), 'ok ' + ' '.join(hexs(e.payload().encode('utf-8')) for e in got)
+
+
+def remote_side(ctx):
+    from supervisor import events
+    from supervisor.rpcinterface import SupervisorNamespaceRPCInterface
+    from supervisor.tests.base import DummySupervisor
+    rng = ctx.rng
+    iface = SupervisorNamespaceRPCInterface(DummySupervisor())
+    got = []
+    events.subscribe(events.RemoteCommunicationEvent, got.append)
+    ops, impl = [], []
+    try:
+        for t, d in [('foo', 'bar'), ('t', ''), ('x', 'type:y\nlen:3\n\n'), ('é', 'naïve\n€'), ('a:b', '\U0001f600')] + \
+                    [(gen_name(rng), gen_text(rng)) for _ in range(ctx.n(60, 1500))]:
+            o, i = remote_case(ctx, iface, got, t, d)
+            ops.append(o); impl.append(i)
+    finally:
+        events.unsubscribe(events.RemoteCommunicationEvent, got.append)
+    for cls in (events.SupervisorRunningEvent, events.SupervisorStoppingEvent):
+        p = cls().payload()
+        if p != '':
+            ctx.violation('supervisor-state-payload-not-empty', repr(p), {'what': 'supstate', 'class': cls.__name__})
+        ops.append('supstate'); impl.append('ok ' + hexs(p.encode('utf-8')))
+        ctx.case_done(('supstate', cls.__name__), nontrivial=False)
+    return ops, impl
+
+
 def slice_exact(period, ticks):
     """start of the time slice of `period` seconds containing clock reading ticks/1024 s, in whole seconds"""
     return (ticks // (1024 * period)) * period
@@ -372,6 +413,9 @@ def run(ctx):
         P.fmt('tick', rng.choice(events.TICK_EVENTS)(w, None), [str(w)])
     ctx.sample({'op': P.ops[0], 'impl': P.impl[0]})
     ctx.correspond('envelope', [('case envelope payloads', P.ops)], [P.impl])
+    # ---- sendRemoteCommEvent through the real RPC interface; supervisor state change payloads ----
+    rops, rimpl = remote_side(ctx)
+    ctx.correspond('envelope', [('case envelope remote', rops)], [rimpl])
     # ---- ticks ----
     cases, impls = [], []
     for readings in CLOCK_CORPUS + [gen_clock(rng) for _ in range(ctx.n(150, 4000))]:
@@ -390,6 +434,15 @@ def replay(ctx, data):
         EnvelopeSide(ctx).one(inp['identifier'], inp['pool'], inp['serial'], inp['poolserial'], cls, inp['text'], classes)
     elif inp['what'] == 'tick':
         tick_case(ctx, inp['readings'], classes)
+    elif inp['what'] == 'remote':
+        from supervisor.rpcinterface import SupervisorNamespaceRPCInterface
+        from supervisor.tests.base import DummySupervisor
+        got = []
+        events.subscribe(events.RemoteCommunicationEvent, got.append)
+        try:
+            remote_case(ctx, SupervisorNamespaceRPCInterface(DummySupervisor()), got, inp['type'], inp['data'])
+        finally:
+            events.unsubscribe(events.RemoteCommunicationEvent, got.append)
     elif inp['what'] == 'process_state':
         cls = [c for c in classes if c.__name__ == inp['class']][0]
         PayloadSide(ctx).process_state(cls, inp['name'], inp['group'], inp['from_state'], inp['backoff'], inp['expected'], inp['pid'])
@@ -407,7 +460,7 @@ TECHNIQUE = ("Lean 4 theorems over an interpreter of the regenerated header temp
              "registry and tick comparisons; UTF-8 encoder defined in Lean; differential correspondence against the real pool, "
              "event classes and Supervisor.tick under a patched clock; independent byte-level listener parser as monitor")
 LEVEL_TEXT = ("header_roundtrip, eventname_concrete (decided over the whole regenerated registry), len_ascii_partial with the "
-              "counterexample len_not_byte_length (open finding F2), payload field theorems and tick_exact (every clock reading "
+              "counterexample len_not_byte_length (open finding F2), payload content theorems for every notification kind, send_remote_comm (one-to-one), slice_seconds and tick_exact (every clock reading "
               "sequence, also backwards and skipping) are proved; the model is run against the real implementation on every "
               "concrete event class with ASCII / non-ASCII payloads and on random clock sequences")
 LEVEL_NOTE = "F2 (len counts characters) and F15 (repr payload for undecodable child output) are open known findings; see DESIGN.md C11"
